@@ -10,8 +10,8 @@ TECH = "contract-based deductive verification: VCs generated from the real Pytho
 CLAIMED = {
     # id: (category, text, note, technique, design_ref)
     "C01": ("proof", "partition (every feed unit exactly once, one category, live count kept) proved on the real CombinedDataHandler.__init__ + get_units for both unreporting policies; counted-votes / reporting-count conservation proved for the real _get_reporting_aggregate_votes and get_aggregate_predictions at state, county, classification and district level; unit table of ModelResultsHandler (C02 module)", "A-REAL; V1 unique ids; V2; V7 under policy zero only; A-OBJSUM; pandas contracts listed in evidence.trusted_base; outlier models abstracted as arbitrary row filters; bootstrap margin clause: see C06", TECH + "; KFrame/GFrame theory, formal sums with Lean-backed lemma instances", "DESIGN 4 C01"),
-    "C02": ("proof", "base/nonparametric aggregate identities (pred = counted + sum of unit preds; lower/upper likewise), row alignment of interval columns with the estimates table, unit table contents, and the side conditions of the sum_fiberwise lemma (levels agree) proved from the real code", "as C01/C03; gaussian interval-row alignment rests on C15; 'levels agree' = Lean lemma sum_fiberwise + proved per-table contracts", TECH, "DESIGN 4 C02"),
-    "C03": ("proof", "floors, whole numbers and finality proved on the real get_unit_predictions, nonparametric get_unit_prediction_intervals (incl. the whole calibration split executed symbolically) and nonparametric aggregate intervals; zero width without outstanding units", "A-REAL; V2; A-QR; Featurizer via its row-preserving contract; gaussian estimator: not yet under contract in this check (A-SIGMA)", TECH, "DESIGN 4 C03"),
+    "C02": ("proof", "base/nonparametric aggregate identities (pred = counted + sum of unit preds; lower/upper likewise), row alignment of interval columns with the estimates table, unit table contents, and the side conditions of the sum_fiberwise lemma (levels agree) proved from the real code", "as C01/C03; gaussian interval rows: the C15 aggregate units (exactly one model row per outstanding group, positional alignment obligations) registered here as well; 'levels agree' = Lean lemma sum_fiberwise + proved per-table contracts", TECH, "DESIGN 4 C02"),
+    "C03": ("proof", "floors, whole numbers and finality proved on the real get_unit_predictions, nonparametric get_unit_prediction_intervals (incl. the whole calibration split executed symbolically), nonparametric and gaussian aggregate intervals; zero width without outstanding units", "A-REAL; V2; A-QR; Featurizer via its row-preserving contract; gaussian estimator: unit formula and the aggregate function proved with GaussianModel.fit under the contract proved in C15 (A-WM, A-SIGMA)", TECH, "DESIGN 4 C03"),
     "C05": ("proof", "with no features/fixed effects the REAL Featurizer is executed: the solver is asked the intercept-only weighted-median problem on exactly the reporting rows (weights = previous results, tau = 1/2, unregularised intercept) and every prediction is round(max((1+m)*baseline, partial count)) for the one returned m", "A-QR and L-WM (the returned m IS the weighted median) are assumptions about the external LP solver, not proved", TECH, "DESIGN 4 C05"),
     "C06": ("proof", "rank arithmetic of _get_quantiles proved for all alpha in (0,1) and all integer B>=2 from the real AST (valid ranks, upper rank <= (B-1)/B, ranks nested for nested levels)", "A-REAL (floats as reals); numpy.floor/ceil contracts", TECH, "DESIGN 4 C06"),
     "C07": ("proof", "_format_called_contests (raises iff contradictory/unknown, entry values; unbounded list lengths via the pointwise loop rule) and _adjust_called_contests (decision table) proved from the real AST", "A-REAL; numpy.isclose/maximum/minimum contracts; list membership as uninterpreted predicates", TECH, "DESIGN 4 C07"),
